@@ -615,6 +615,16 @@ func c20RePrepare(c *ev.Ctx) {
 				// refused not by the parser or compiler but by the size limits: a script that
 				// compiles, with a constant pool smaller than the first script's
 				scriptB = strings.Repeat([]string{"1 + 1;\n", "x = 2;\n", "t(1);\n"}[r.Intn(3)], 17000+r.Intn(4000))
+				switch r.Intn(3) {
+				case 0:
+					// a main program that is within the limit until its very last statement has
+					// been compiled (the compiler's own early exit does not see it; only the
+					// final check of Prepare does)
+					scriptB = strings.Repeat("a = 1;\n", 9362) + "a = true;"
+				case 1:
+					// the same for the body of a function
+					scriptB = "function big() { " + strings.Repeat("a = 1;\n", 9362) + "a = true; } return 1;"
+				}
 			}
 		}
 		noOpt := r.Intn(2) == 0
